@@ -299,7 +299,25 @@ class Conv:
             pre = self.stmt(s.init) if s.get("init") is not None else []
             body = self.stmts(s.body.stmts)
             if s.get("post") is not None:
-                body = body + self.stmt(s.post)
+                # `continue` runs the increment part before the test
+                def with_post(stmts_: List[ast.stmt]) -> List[ast.stmt]:
+                    out_: List[ast.stmt] = []
+                    for st_ in stmts_:
+                        if isinstance(st_, ast.Continue):
+                            out_.extend(self.stmt(s.post))
+                            out_.append(st_)
+                            continue
+                        if isinstance(st_, (ast.While, ast.For)):
+                            out_.append(st_)  # a nested loop owns its own continue
+                            continue
+                        for fld_ in ("body", "orelse", "finalbody"):
+                            sub_ = getattr(st_, fld_, None)
+                            if isinstance(sub_, list) and sub_ and isinstance(sub_[0], ast.stmt):
+                                setattr(st_, fld_, with_post(sub_))
+                        out_.append(st_)
+                    return out_
+
+                body = with_post(body) + self.stmt(s.post)
             test = self.expr(s.cond) if s.get("cond") is not None else ast.Constant(value=True)
             return pre + [self._at(ast.While(test=test, body=body or [ast.Pass()], orelse=[]), s)]
         if k == "forrange":
